@@ -73,6 +73,8 @@ def checkC06 (trace : List (Rec × List Rec)) : Option String := Id.run do
   for (op, obs) in trace do
     if op.name == "cat" then cat := cat ++ [ModAdapter.cfgOfRec op]
     if obs.any (·.name == "panic") then return some s!"panic during {op.name}"
+    if let some r := obs.find? (·.name == "stale") then
+      return some s!"a stats snapshot's derived values after a change of {r.str "prop"} depend on whether they had been read before the change"
     let lists := obs.filter (·.name == "list")
     -- (a) stats = base ⊕ Σ attached
     for r in lists do
